@@ -2,7 +2,7 @@
 # tools/seed_verify.sh <id> '<ctest regex>' : re-verify a seeded change in its scratch worktree /tmp/seed_<id>:
 #  demo fails with the change, passes without; the named existing tests give the same result with and without.
 #  (no git stash: the stash is shared by all worktrees of a repository)
-id=$1; rx=$2; wt=/tmp/seed_$id; cd $wt || exit 2
+id=$1; rx=$2; wt=${WT:-/tmp/seed_$id}; cd $wt || exit 2
 P=$wt/_seed/patch.diff
 run_demo() { bash -c "$(python3 -c "import json;print(json.load(open('$wt/_seed/meta.json'))['demo_build_and_run'].split('#')[0].replace('; echo exit=\$?',''))")" > $wt/_seed/demo.$1.log 2>&1; echo $?; }
 build() { cmake --build $wt/_build -j6 2>&1 | tail -1; }
